@@ -43,6 +43,42 @@ def run(ctx):
              "and every whole-collection accessor visits both the unscoped and the path-scoped rules")
     from . import rulecoll
     rulecoll.invariants(ctx, "R7")
+    # the language server selects rules and the language by the document's FILE path (Url::to_file_path: percent-decoded, platform form),
+    # as the CLI does by the path it walked — never by the URI's raw path component
+    n_p = 0
+    for f in prog.fns.values():
+        if f.crate != "ast_grep_lsp":
+            continue
+        for c in f.calls:
+            if c.bb not in f.live_blocks or not (c.best.endswith("RuleCollection::<L>::for_path") or c.best.endswith("language::Language::from_path")):
+                continue
+            n_p += 1
+            arg = c.args[-1]
+            names = set()
+            seen = set()
+            def walk(op, depth=0):
+                if op[0] == "k" or depth > 12:
+                    return
+                for o in f.trace_operand(op):
+                    k = (o.kind, o.ref if isinstance(o.ref, (int, str)) else id(o.ref))
+                    if k in seen:
+                        continue
+                    seen.add(k)
+                    if o.kind == "call":
+                        names.add(o.ref.best if "url::" in o.ref.best else o.ref.name)
+                        for a in o.ref.args:
+                            walk(a, depth + 1)
+                    elif o.kind == "agg":
+                        for sub in o.ref[2][2]:
+                            walk(sub, depth + 1)
+            walk(arg)
+            raw = sorted(x for x in names if x.startswith("url::") and not x.endswith("to_file_path"))
+            ok = any(x.endswith("url::Url::to_file_path") for x in names) and not raw
+            ctx.ob("R7", "%s/%s receives the decoded file path" % (f.id, c.name), ok,
+                   "the path comes from Url::to_file_path" if ok else
+                   "the path handed to %s comes from %s: a URI with an escaped character (space, non-ASCII) no longer matches the workspace base / the rules' files globs, so the language "
+                   "server lists other findings than `sg scan` for the same text" % (c.name, raw or sorted(names)[:4]), where=f.loc(c.line))
+    ctx.floor("R7", "LSP lookups by path", n_p, 2)
     ctx.rule("R3", "LSP: stale document versions are ignored; the stored version is the one published; close removes the entry")
     fronts = [
         (r"^<ast_grep::scan::ScanWithConfig as ast_grep::utils::worker::PathWorker>::produce_item$", "get_rule_from_lang"),
